@@ -316,6 +316,9 @@ def huge_rand_cases(tier):
             if tier == "quick" and n != 2 ** 24 + 3 and sp in (0.996, 0.75, 0.004) and (n, sp) != (30000000, 0.004):
                 continue
             cases.append(rand_vec_case(1, "BOOLVECTOR.RAND", n, sp))
+    # FLOATVECTOR.SINE just above 2^24 elements (a loop counter kept in f32 stops advancing at 16777216.0)
+    for n_ in (2 ** 24 + 1, 2 ** 24 + 2):
+        cases.append(case_run(1, state(exec=[I("FLOATVECTOR.SINE")], int=[n_], float=[fbits(1.0), fbits(0.001), fbits(0.0)]), 0, 1))
     cases.append(rand_vec_case(1, "INTVECTOR.RAND", 2 ** 24 + 3))
     cases.append(rand_vec_case(1, "FLOATVECTOR.RAND", 2 ** 24 + 3))
     if tier != "quick":                               # the debug binary needs 9 .. 13 s for half-dense vectors of this size
@@ -357,6 +360,15 @@ def scaling_cases(modelled):
         for (x, y) in ((flat, flat2), (deep, deep2)):
             st = dict(code=[x, y, Z(3)], exec=[I(nm), x, y, Z(3)], int=[19999, 3], bool=[True], name=["A"])
             cases.append(case_run(1, state(**st), 0, 1))
+    # a search that SUCCEEDS at the bottom of a deep nesting (a hit must not be looked up again on every level on the way back)
+    for levels in (48, 200, 1500):
+        t = N("X")
+        for _ in range(levels):
+            t = L(Z(1), t)
+        for nm in ("CODE.CONTAINS", "CODE.MEMBER", "CODE.POSITION", "CODE.CONTAINER", "CODE.SUBST", "CODE.EXTRACT", "CODE.INSERT"):
+            if nm in modelled:
+                for code in ([t, N("X"), Z(5)], [N("X"), t, Z(5)]):
+                    cases.append(case_run(1, state(code=code, exec=[I(nm)], int=[2 * levels, 3]), 0, 1))
     return cases
 
 
